@@ -151,9 +151,19 @@ theorem cache_sound_partial [DecidableEq φ] {Obj : Type} (compileRel : Rel → 
     (fun i₁ i₂ s₁ s₂ hk => key_covers_of_hyp hb fp hbi fpi i₁.2 i₁.1 i₂.1 i₂.2 (hS i₁ i₂ s₁ s₂) hk)
     p₀ h hp₀ hh o).1
 
-example : ∀ a b, (fun i => i = exIn₁ ∨ i = exIn₂) a → (fun i => i = exIn₁ ∨ i = exIn₂) b → Hyp a b := by
+/-- non-vacuity of the universe hypothesis of `cache_sound_partial` / `cache_sound_on` -/
+theorem exUniverse_hyp : ∀ a b, (fun i => i = exIn₁ ∨ i = exIn₂) a → (fun i => i = exIn₁ ∨ i = exIn₂) b → Hyp a b := by
   intro a b ha hb
   rcases ha with rfl | rfl <;> rcases hb with rfl | rfl <;> decide
+
+example (hbi : Function.Injective hb) (fpi : Function.Injective fp) :
+    KeyCoversOn hb fp (fun i => i = exIn₁ ∨ i = exIn₂) :=
+  fun i₁ i₂ s₁ s₂ hk => key_covers_of_hyp hb fp hbi fpi i₁.2 i₁.1 i₂.1 i₂.2 (exUniverse_hyp i₁ i₂ s₁ s₂) hk
+
+example : ProgIn (fun i => i = exIn₁ ∨ i = exIn₂) ⟨exIn₁.1, [exIn₁.2]⟩ := by
+  intro t ht
+  simp only [List.mem_singleton] at ht
+  exact Or.inl (by rw [ht])
 
 end Partial
 
@@ -196,6 +206,8 @@ theorem abiTypes_order_independent (filter : String → Bool) (s₁ s₂ : List 
   intro n _
   rw [find_key_perm s₁ s₂ hp hnd n]
 
+example : ([("t2", "B"), ("t1", "A"), ("t3", "C")].map (·.1)).Nodup := by decide
+
 /-- **the manifest does not depend on map iteration order**: permuting the imports (`pkg.Imports` is a Go map) and the
     `-X` variables (`rewriteVars` is a Go map) of a package leaves its fingerprint unchanged -/
 theorem manifest_order_independent {φ : Type} (hb : Bytes → φ) (fp : Manifest φ → φ) (g : Global) (d : PkgData)
@@ -214,5 +226,8 @@ theorem manifest_order_independent {φ : Type} (hb : Bytes → φ) (fp : Manifes
     simp only [packageSection, hrw]
   simp only [key] at hdeps ⊢
   rw [hdeps, hpkg]
+
+example : ([exDep [49] 100, PkgT.mk { id := "m/b", path := "m/b" } []].map (·.data.id)).Nodup
+    ∧ ([("V", "1"), ("W", "2")].map (·.1)).Nodup := by decide
 
 end LlgoVerif.Cache
